@@ -125,6 +125,62 @@ static void h_key_destroy(void *p) {
     k->destroyed++;
     k->dead_in_op = 1;
 }
+/* configuration "-two": a second linked hash table B lives next to the one under test, and A's value destructor works on it
+ * (overwrite, remove, insert again) - also while A is being cleared, which is legitimate: B is a different object.  After every
+ * operation on A, B must be what those nested operations left: one entry, its list one node long, found under its key (added
+ * after a seeded change that kept an "all entries are being removed" flag at file scope: entries of B destroyed while A was
+ * being cleared stayed linked in B's list) */
+static int g_two;
+static struct aws_linked_hash_table TB;
+static int TB_live, TB_expected; /* entries B should hold */
+static int tb_destroyed;
+static void tb_val_destroy(void *p) {
+    (void)p;
+    ++tb_destroyed;
+}
+static int tb_key; /* B has a key object and callbacks of its own */
+static uint64_t tb_hash(const void *k) {
+    (void)k;
+    return 3;
+}
+static bool tb_eq(const void *a, const void *b) { return a == b; }
+static void two_activity(void) {
+    if (!g_two || !TB_live) return;
+    static int tbv[2];
+    int rc = aws_linked_hash_table_put(&TB, &tb_key, &tbv[0]); /* overwrite (or first insert) */
+    rc |= aws_linked_hash_table_remove(&TB, &tb_key);
+    rc |= aws_linked_hash_table_put(&TB, &tb_key, &tbv[1]);
+    TB_expected = 1;
+    if (rc) esx_fail("second-table", "%s: an operation on the second table made from A's value destructor failed", g_opname);
+}
+static void two_check(void) {
+    if (!g_two || !TB_live) return;
+    size_t cnt = aws_linked_hash_table_get_element_count(&TB);
+    const struct aws_linked_list *list = aws_linked_hash_table_get_iteration_list(&TB);
+    int n = 0;
+    for (const struct aws_linked_list_node *it = aws_linked_list_begin(list); it != aws_linked_list_end(list) && n < 8; it = aws_linked_list_next(it)) {
+        const struct aws_linked_hash_table_node *node = AWS_CONTAINER_OF(it, struct aws_linked_hash_table_node, node);
+        if (node->key != (void *)&tb_key) esx_fail("second-table", "%s: the second table's iteration list holds a node whose key was never put", g_opname);
+        ++n;
+    }
+    void *v = NULL;
+    int rc = aws_linked_hash_table_find(&TB, &tb_key, &v);
+    if (cnt != (size_t)TB_expected || n != TB_expected || rc != AWS_OP_SUCCESS || (TB_expected && !v))
+        esx_fail("second-table", "%s: the second table should hold %d entr%s: element count %zu, iteration list of %d node(s), lookup %s", g_opname, TB_expected, TB_expected == 1 ? "y" : "ies", cnt, n,
+                 v ? "finds it" : "finds nothing");
+}
+static void two_reset(struct aws_allocator *a) {
+    TB_live = TB_expected = tb_destroyed = 0;
+    if (!g_two) return;
+    AWS_ZERO_STRUCT(TB);
+    if (aws_linked_hash_table_init(&TB, a, tb_hash, tb_eq, NULL, tb_val_destroy, 2)) _exit(2);
+    TB_live = 1;
+}
+static void two_teardown(void) {
+    if (!TB_live) return;
+    TB_live = 0;
+    aws_linked_hash_table_clean_up(&TB);
+}
 static void h_val_destroy(void *p) {
     struct vobj *v = as_val(p);
     if (!v) {
@@ -132,6 +188,7 @@ static void h_val_destroy(void *p) {
         return;
     }
     v->destroyed++;
+    if (g_two) two_activity();
     if (g_probe_tbl && !g_in_probe) {
         g_in_probe = 1;
         for (int k = 0; k < g_nk; ++k) {
